@@ -5,6 +5,7 @@ import copy
 
 from sa import cfg as cfgmod
 from sa import model
+from sa import norm
 from sa.model import AnalysisError
 
 TITLE = 'resolution skeleton: error classes, unconditional type check, ' \
@@ -50,49 +51,22 @@ def _branch_of(node, ifnode):
     return None
 
 
-def _terminates(stmts):
-    if not stmts:
-        return False
-    last = stmts[-1]
-    if isinstance(last, (ast.Raise, ast.Return, ast.Continue, ast.Break)):
-        return True
-    if isinstance(last, ast.If):
-        return _terminates(last.body) and _terminates(last.orelse)
-    return False
+def is_receiver_test(e):
+    """`receiver is <...>NO_VALUE` (atoms() has already turned `is not`
+    into `is` with the opposite polarity)."""
+    return isinstance(e, ast.Compare) and len(e.ops) == 1 and isinstance(
+        e.ops[0], ast.Is) and isinstance(e.left, ast.Name) and \
+        e.left.id == 'receiver' and model.norm(
+            e.comparators[0]).endswith('NO_VALUE')
 
 
-def receiver_side(st, fn_node):
-    """On which side of a `receiver is NO_VALUE` test does statement `st`
-    execute?  True = no receiver, False = receiver, None = untested.
-    Understands both the if/else form and the early-exit form
-    (`if <test>: raise A` followed by `raise B`)."""
-    node = st
-    while node is not None and node is not fn_node:
-        parent = getattr(node, '_parent', None)
-        if isinstance(parent, ast.If):
-            pol = _receiver_polarity(parent.test)
-            if pol is not None and not any(
-                    x is node for x in ast.walk(parent.test)):
-                in_body = any(node is x for x in parent.body)
-                return pol if in_body else not pol
-        # earlier siblings that exit on one side
-        for field in ('body', 'orelse', 'finalbody'):
-            block = getattr(parent, field, None)
-            if isinstance(block, list) and any(x is node for x in block):
-                idx = [i for i, x in enumerate(block) if x is node][0]
-                for prev in reversed(block[:idx]):
-                    if isinstance(prev, ast.If):
-                        pol = _receiver_polarity(prev.test)
-                        if pol is None:
-                            continue
-                        b, o = _terminates(prev.body), _terminates(
-                            prev.orelse)
-                        if b and not o:
-                            return not pol
-                        if o and not b:
-                            return pol
-        node = parent
-    return None
+def receiver_side(node, fn_node):
+    """On which side of a `receiver is NO_VALUE` test does `node` execute?
+    True = no receiver, False = receiver, None = untested.  if/else,
+    early-exit, conditional-expression and boolean-local spellings are all
+    understood (sa.norm.guards); a nested def / lambda inherits the guards
+    of its definition site because `receiver` is never re-bound."""
+    return norm.literal_polarity(node, fn_node, is_receiver_test)
 
 
 def resolution_raises(repo, mod):
@@ -130,7 +104,10 @@ def check_error_kinds(repo, rep):
     for fi, st, cname in sites:
         kind, stage = RESOLUTION[cname]
         site = '%s/raise[%s]' % (fi.key, cname)
-        no_receiver_side = receiver_side(st, fi.node)
+        top = fi
+        while top.parent_func is not None:
+            top = top.parent_func
+        no_receiver_side = receiver_side(st, top.node)
         if no_receiver_side is None:
             rep.ob('R05a', site, False,
                    '%s is raised without a test of `receiver`: calls of '
@@ -169,28 +146,42 @@ def check_error_kinds(repo, rep):
                             s.value.func.attr == 'collect_functions' and \
                             isinstance(s.targets[0], ast.Name):
                         coll = s.targets[0].id
-                g = None
-                i = model.enclosing(st, ast.If)
-                while i is not None and g is None:
-                    t = i.test
-                    neg = False
-                    if isinstance(t, ast.UnaryOp) and isinstance(
-                            t.op, ast.Not):
-                        neg, t = True, t.operand
-                    if isinstance(t, ast.Compare) and len(t.ops) == 1 and \
-                            isinstance(t.left, ast.Call) and model.norm(
-                            t.left.func) == 'len' and isinstance(
-                            t.comparators[0], ast.Constant) and \
-                            t.comparators[0].value == 0:
-                        if isinstance(t.ops[0], ast.Eq):
-                            neg, t = not neg, t.left.args[0]
-                        elif isinstance(t.ops[0], (ast.Gt, ast.NotEq)):
-                            t = t.left.args[0]
-                    if isinstance(t, ast.Name) and t.id == coll:
-                        g = (i, neg)
-                    i = model.enclosing(i, ast.If)
-                ok = g is not None and (_branch_of(st, g[0]) == 'body') == \
-                    g[1]
+                def is_collection_nonempty(e, _c=coll):
+                    # atom meaning "the collection is non-empty"
+                    if isinstance(e, ast.Name) and e.id == _c:
+                        return True
+                    return False
+
+                def emptiness(e, _c=coll):
+                    """atom -> True if it means non-empty, False if it
+                    means empty, None otherwise"""
+                    if isinstance(e, ast.Name) and e.id == _c:
+                        return True
+                    if isinstance(e, ast.Compare) and len(e.ops) == 1 and \
+                            isinstance(e.left, ast.Call) and model.norm(
+                            e.left.func) == 'len' and e.left.args and \
+                            isinstance(e.left.args[0], ast.Name) and \
+                            e.left.args[0].id == _c and isinstance(
+                            e.comparators[0], ast.Constant):
+                        k = e.comparators[0].value
+                        op = type(e.ops[0])
+                        if k == 0 and op is ast.Eq:
+                            return False
+                        if k == 0 and op is ast.Gt:
+                            return True
+                        if k == 1 and op is ast.Lt:
+                            return False
+                        if k == 1 and op is ast.GtE:
+                            return True
+                    return None
+                ok = False
+                for e, pol in norm.literals(st, call.node):
+                    m = emptiness(e)
+                    if m is None:
+                        continue
+                    # (non-empty, False) or (empty, True): collection empty
+                    if m != pol:
+                        ok = True
                 why = '"unknown function/method" must be raised exactly ' \
                       'when collect_functions found nothing (`not %s`)' % \
                       coll
@@ -241,6 +232,27 @@ def _guard_is_exactly_check(fn_node, ifnode, want_fail_branch_node):
     if _is_check_call(t):
         return br == 'orelse', t
     return False, None
+
+
+def _through_checker(mod, gd, checker, expr, seen):
+    """The value of `expr` is produced by the checker: it contains a call
+    of it, or a call of a local helper of get_delegate every return of
+    which is produced by the checker."""
+    for c in ast.walk(expr):
+        if not (isinstance(c, ast.Call) and isinstance(c.func, ast.Name)):
+            continue
+        if c.func.id == checker.name:
+            return True
+        helper = mod.functions.get(gd.qualname + '.' + c.func.id)
+        if helper is not None and helper.key not in seen:
+            seen.add(helper.key)
+            rets = [r for r in model.walk_shallow(helper.node)
+                    if isinstance(r, ast.Return)]
+            if rets and all(
+                    r.value is not None and _through_checker(
+                        mod, gd, checker, r.value, seen) for r in rets):
+                return True
+    return False
 
 
 def check_type_checks(repo, rep):
@@ -347,9 +359,7 @@ def check_type_checks(repo, rep):
             continue
         stores += 1
         n += 1
-        through = any(isinstance(c, ast.Call) and isinstance(
-            c.func, ast.Name) and c.func.id == checker.name
-            for c in ast.walk(val_expr))
+        through = _through_checker(mod, gd, checker, val_expr, set())
         rep.ob('R05c', '%s/slot[%s]' % (gd.key, model.norm(s)[:60]),
                through,
                'an argument slot of `%s` is filled without going through '
